@@ -105,13 +105,57 @@ impl Polytope {
         if let Some(answer) = super::verif::lp_tap(self, &coeffs) {
             return answer;
         }
-        let problem = self.as_linprog(coeffs);
+        let problem = self.as_linprog(coeffs.clone());
         let pb = problem.solver;
         let vars = problem.vars;
 
         match pb.solve() {
             Ok(sol) => {
                 let wit = Array1::from_iter(vars.iter().map(|var| sol[*var]));
+                if wit.iter().any(|x| x.is_infinite() || x.is_nan()) {
+                    // The solver leaves free variables that do not influence the optimum at +-inf, which
+                    // happens when the optimal face is unbounded although the minimum is finite.
+                    self.solve_linprog_split(&coeffs)
+                } else {
+                    PolytopeStatus::Optimal(wit)
+                }
+            }
+            Err(minilp::Error::Infeasible) => PolytopeStatus::Infeasible,
+            // also reported for free variables that occur in no constraint and have zero cost
+            Err(minilp::Error::Unbounded) => self.solve_linprog_split(&coeffs),
+        }
+    }
+
+    /// Solves the same linear program as [`Polytope::solve_linprog`] with every free variable split into
+    /// its non-negative positive and negative part, so that an optimal vertex with finite coordinates is
+    /// returned whenever the minimum exists.
+    #[cfg(feature = "minilp")]
+    fn solve_linprog_split(&self, coeffs: &Array1<f64>) -> PolytopeStatus {
+        use minilp::{ComparisonOp, OptimizationDirection};
+
+        let mut pb = Problem::new(OptimizationDirection::Minimize);
+        let vars: Vec<(Variable, Variable)> = coeffs
+            .iter()
+            .map(|x| {
+                (
+                    pb.add_var(*x, (0.0, f64::INFINITY)),
+                    pb.add_var(-*x, (0.0, f64::INFINITY)),
+                )
+            })
+            .collect();
+
+        for (row, bias) in zip(self.mat.rows(), &self.bias) {
+            let mut constraint: Vec<(Variable, f64)> = Vec::with_capacity(2 * vars.len());
+            for ((pos, neg), coeff) in zip(&vars, row) {
+                constraint.push((*pos, *coeff));
+                constraint.push((*neg, -*coeff));
+            }
+            pb.add_constraint(constraint.as_slice(), ComparisonOp::Le, *bias);
+        }
+
+        match pb.solve() {
+            Ok(sol) => {
+                let wit = Array1::from_iter(vars.iter().map(|(pos, neg)| sol[*pos] - sol[*neg]));
                 if wit.iter().any(|x| x.is_infinite() || x.is_nan()) {
                     PolytopeStatus::Unbounded
                 } else {
